@@ -737,12 +737,27 @@ class TextXMetaModel(DebugPrinter):
                 if pre_ref_resolution_callback:
                     pre_ref_resolution_callback(other_model)
 
+            cached_before = None
+            if hasattr(self, "_tx_model_repository"):
+                # Remember what the global repo holds before this load.
+                cached_before = set(
+                    self._tx_model_repository.all_models.filename_to_model
+                )
             model = self._parser_blueprint.clone().get_model_from_str(
                 model_str, debug=debug, pre_ref_resolution_callback=kwargs_callback
             )
 
-            for p in self._model_processors:
-                p(model, self)
+            try:
+                for p in self._model_processors:
+                    p(model, self)
+            except:  # noqa
+                if cached_before is not None:
+                    # The load failed: models loaded by it must not stay cached
+                    # in the global repo (models cached before are kept).
+                    all_models = self._tx_model_repository.all_models.filename_to_model
+                    for key in [k for k in all_models if k not in cached_before]:
+                        del all_models[key]
+                raise
         else:
             model = self.internal_model_from_file(
                 file_name,
